@@ -16,7 +16,7 @@ use crate::refmodel::cramtok::*;
 
 pub struct VcCram;
 
-pub const KINDS: [&str; 22] = [
+pub const KINDS: [&str; 24] = [
     // non-ASCII text in every line role (title, one-space line, expectation, command)
     "\u{65e5}\u{672c}\u{8a9e} title",
     " \u{e9}",
@@ -41,6 +41,9 @@ pub const KINDS: [&str; 22] = [
     "  a\tb (esc)",
     // looks like an exit code line but for the blank at its end: an expectation whose white space is kept
     "  [4] ",
+    // command head and continuation that end in blanks (significant inside an open quote or here-document): kept verbatim
+    "  $ echo \"a  ",
+    "  > b \" ",
 ];
 /// core alphabet for the deeper run
 pub const CORE: [usize; 9] = [4, 6, 7, 8, 10, 11, 15, 12, 0];
